@@ -131,6 +131,7 @@ def _boundary():
     for kk in range(0, 40):
         lines.append("l code %d/1048576" % (kk * 26215 + kk))
     out.append(("code", lines))
+    out.append(("empty", ["l range 0 1", "l empty", "l range null", "l empty", "l range 1 0", "l empty"]))
     # joins at the field limits
     lines = ["l range 0 1"]
     cases = ["3:3:0:0 2:2:0:0", "3:3:7:0 2:2:0:9", "3:3:0:5 2:2:0:0", "3:3:0:0 2:2:4:0", "3:2:0:0 2:2:0:0",
@@ -345,6 +346,16 @@ class _XX:
                      "xl data 0 " + ",".join(r3.choice(syms) for _ in range(n)), "xl data 1 " + ",".join(r3.choice(syms) for _ in range(m)),
                      "xl set %d" % n, "xl apply 0", "xl poly", "xl apply 1", "xl poly", "xl apply 0", "xl poly"]
             out.append(("xxshort:%d" % k, lines))
+        # a shorter dimension that ends inside (or at the end of) a part without drawn points, more parts behind it
+        for k in range(12 if tier == "quick" else 60):
+            hid = r3.choice([2, 3, 4])
+            vis = r3.choice([2, 3])
+            m = r3.choice([1, hid - 1, hid, hid])
+            d0 = [r3.choice([syms[0], syms[4]]) for _ in range(hid)] + [syms[2]] * vis + [r3.choice(syms) for _ in range(r3.choice([0, 2]))]
+            d1 = [r3.choice([syms[1], syms[2], syms[3]]) for _ in range(m)]
+            lines = ["xl new", "xl range 0 %s %s" % (rg[0], rg[1]), "xl range 1 %s %s" % (rg[0], rg[1]), "xl data 0 " + ",".join(d0),
+                     "xl data 1 " + ",".join(d1), "xl set %d" % len(d0), "xl apply 0", "xl apply 1", "xl poly", "xl apply 1", "xl poly"]
+            out.append(("xxhid:%d" % k, lines))
         # two handles on one part array (a copied polyline): changing one leaves the parts of the other alone
         for k in range(10 if tier == "quick" else 80):
             n = r3.choice([3, 5, 8, 12])
